@@ -22,7 +22,9 @@ from fiddle import arg_factory
 from fiddle.experimental import auto_config
 from harness import targets
 from harness.c11lib import base
-from harness.c11lib.base import Enc, Dec, relu, scale, plain_helper, inner_inline, inner_opaque
+from harness.c11lib.base import Enc, Dec, relu, scale, plain_helper, inner_inline, inner_opaque, fresh_enc
+import logging
+_LOG = logging.getLogger('c11_generated')
 
 '''
 
@@ -96,11 +98,18 @@ class ProgGen:
       return f'auto_config.with_tags({self.call(depth)}, targets.T1)'
     if x < 0.94:
       return r.choice([f'Dec.make({e()})', f'Dec.helper({e()})', f'base.Dec.make(enc={e()})'])
-    return f'(lambda z: relu(x=z))({e()})' if False else f'Enc(act=relu)'
+    if r.random() < 0.35:
+      # an auto_config function used as an argument factory of a partial: evaluated anew per call
+      return r.choice(['arg_factory.partial(Dec, enc=fresh_enc)', 'arg_factory.partial(Dec, enc=fresh_enc, width=3)',
+                       'arg_factory.partial(Dec, opts=list, enc=fresh_enc)'])
+    return f'Enc(act=relu)'
 
   def program(self):
     r = self.r
     n_stmts = r.randint(0, 4)
+    if r.random() < 0.3:
+      # logging through a logger object is exempt from configuration; what follows is not
+      self.lines.append("_LOG.info('building with %s', a)")
     for i in range(n_stmts):
       name = f'v{i}'
       x = r.random()
@@ -165,10 +174,48 @@ def canon(v):
   return C20.bind_canon(v)
 
 
+def called_twice(v):
+  """Results of calling (twice, without arguments) every partial object found in `v`: values AND
+  the sharing between the two calls' results (a factory argument must be evaluated anew)."""
+  import functools as _ft
+  found, seen = [], set()
+
+  def walk(x):
+    if graphs.is_atom(x) or id(x) in seen:
+      return
+    seen.add(id(x))
+    if isinstance(x, _ft.partial):
+      found.append(x)
+      for y in list(x.args) + list(x.keywords.values()):
+        walk(y)
+    elif isinstance(x, targets.Rec):
+      for _, y in x.slots:
+        walk(y)
+      walk(x.var)
+      walk(x.kw)
+    elif hasattr(x, 'rec') and isinstance(x.rec, targets.Rec):
+      walk(x.rec)
+    elif isinstance(x, (list, tuple)):
+      for y in x:
+        walk(y)
+    elif isinstance(x, dict):
+      for y in x.values():
+        walk(y)
+  walk(v)
+  out = []
+  for p in found[:4]:
+    try:
+      out.append(canon([p(), p()]))
+    except Exception as e:
+      out.append({'raised': type(e).__name__})
+  return out
+
+
 def attempt(thunk):
   del targets.LOG[:]
   try:
-    return canon(thunk())
+    v = thunk()
+    return {'value': canon(v), 'calls': called_twice(v)}
   except Exception as e:
     return {'raised': type(e).__name__}
 
@@ -226,7 +273,7 @@ def execute(case):
         obs['m_unsupported'] = f'encode: {type(e).__name__}'
         req = None
       b1 = fdl.build(cfg)
-      obs['built'] = canon(b1)
+      obs['built'] = {'value': canon(b1), 'calls': called_twice(b1)}
       # two builds never share configurable objects (live objects embedded in the config would)
       b2 = fdl.build(cfg)
       ids1 = {id(x) for x in _recs(b1)}
